@@ -139,7 +139,7 @@ theorem level_cons (item : Nat × F) (items : List (Nat × F)) (i : Nat) :
     Tree.level (item :: items) i
       = if item.1 = i then item.2 :: Tree.level items i else Tree.level items i := by
   unfold Tree.level
-  by_cases h : item.1 = i <;> simp [List.filter_cons, h]
+  by_cases h : item.1 = i <;> simp [h]
 
 /-! ### shifting levels by one -/
 
@@ -168,7 +168,7 @@ theorem foldTop_lift_some (u : F) (us : List F) (st st' : List (Nat × F)) (item
       injection h with h; injection h with h1 h2
       subst h1; subst h2
       rw [if_pos (by simpa using heq)]
-      simp [lift]
+      simp
     · cases h
 
 theorem pushItem_lift (d : Nat) (item : Nat × F) (st : List (Nat × F)) :
@@ -245,6 +245,571 @@ theorem sim (u : F) (us : List F) (st' : List (Nat × F)) (ys : List F) (out' : 
     have : xs = [] := List.length_eq_zero_iff.1 (by simpa using hlen)
     subst this
     exact ⟨[], Emits.done (foldTop_lift_none u us st h), rfl, fun i _ => rfl⟩
+
+/-! ### `init_stack` commutes with the shift -/
+
+theorem initStackLoop_zero (i : Nat) (acc : List (Nat × F)) : initStackLoop i 0 acc = acc := by
+  induction i generalizing acc with
+  | zero => rfl
+  | succ i ih =>
+    have : ¬ (0 ≥ 2 ^ i) := by have := Nat.two_pow_pos i; omega
+    simp only [initStackLoop, if_neg this, ih]
+
+theorem initStackLoop_lift (i delta : Nat) (acc : List (Nat × F)) (h : delta < 2 ^ (i + 1)) :
+    initStackLoop (i + 1) delta (lift acc)
+      = (if delta % 2 = 1 then [((0 : Nat), (0 : F))] else []) ++ lift (initStackLoop i (delta / 2) acc) := by
+  induction i generalizing delta acc with
+  | zero =>
+    have hd : delta = 0 ∨ delta = 1 := by simp at h; omega
+    rcases hd with hd | hd <;> subst hd <;> simp [initStackLoop]
+  | succ i ih =>
+    have hp : 2 ^ (i + 1) = 2 * 2 ^ i := by rw [pow_succ]; ring
+    have hp2 : 2 ^ (i + 1 + 1) = 2 * 2 ^ (i + 1) := by rw [pow_succ]; ring
+    rw [initStackLoop]
+    by_cases hge : delta ≥ 2 ^ (i + 1)
+    · rw [if_pos hge]
+      have hl : ((i + 1, (0 : F)) :: lift acc) = lift ((i, 0) :: acc) := by simp [lift]
+      rw [hl, ih (delta - 2 ^ (i + 1)) ((i, 0) :: acc) (by omega)]
+      have hge' : delta / 2 ≥ 2 ^ i := by omega
+      conv_rhs => rw [initStackLoop, if_pos hge']
+      have e1 : (delta - 2 ^ (i + 1)) % 2 = delta % 2 := by omega
+      have e2 : (delta - 2 ^ (i + 1)) / 2 = delta / 2 - 2 ^ i := by omega
+      rw [e1, e2]
+    · rw [if_neg hge]
+      have hge' : ¬ (delta / 2 ≥ 2 ^ i) := by omega
+      conv_rhs => rw [initStackLoop, if_neg hge']
+      exact ih delta acc (by omega)
+
+theorem mod_two_mul (k M : Nat) (_hM : 0 < M) : (2 * k) % (2 * M) = 2 * (k % M) :=
+  Nat.mul_mod_mul_left 2 k M
+
+theorem mod_two_mul_add_one (k M : Nat) (hM : 0 < M) : (2 * k + 1) % (2 * M) = 2 * (k % M) + 1 := by
+  have h1 := Nat.div_add_mod k M
+  have h2 := Nat.mod_lt k hM
+  have : 2 * k + 1 = (2 * M) * (k / M) + (2 * (k % M) + 1) := by
+    have : 2 * M * (k / M) = 2 * (M * (k / M)) := by ring
+    rw [this]; omega
+  rw [this, Nat.mul_add_mod, Nat.mod_eq_of_lt (by omega)]
+
+theorem initStack_even (k d : Nat) :
+    (initStack (2 * k) (d + 1) : List (Nat × F)) = lift (initStack k d) := by
+  have hM := Nat.two_pow_pos d
+  have hp : 2 ^ (d + 1) = 2 * 2 ^ d := by rw [pow_succ]; ring
+  unfold initStack
+  rw [hp, mod_two_mul k _ hM]
+  have h2 := Nat.mod_lt k hM
+  by_cases h0 : k % 2 ^ d = 0
+  · simp [h0, lift]
+  · rw [if_pos (by omega), if_pos h0]
+    have := initStackLoop_lift (F := F) d (2 * 2 ^ d - 2 * (k % 2 ^ d)) [] (by rw [hp]; omega)
+    simp only [lift, List.map_nil] at this
+    rw [this]
+    have e1 : (2 * 2 ^ d - 2 * (k % 2 ^ d)) % 2 = 0 := by omega
+    have e2 : (2 * 2 ^ d - 2 * (k % 2 ^ d)) / 2 = 2 ^ d - k % 2 ^ d := by omega
+    rw [e1, e2]
+    simp [lift]
+
+theorem initStack_odd (k d : Nat) :
+    (initStack (2 * k + 1) (d + 1) : List (Nat × F)) = (0, 0) :: lift (initStack (k + 1) d) := by
+  have hM := Nat.two_pow_pos d
+  have hp : 2 ^ (d + 1) = 2 * 2 ^ d := by rw [pow_succ]; ring
+  unfold initStack
+  rw [hp, mod_two_mul_add_one k _ hM]
+  have h2 := Nat.mod_lt k hM
+  rw [if_pos (by omega)]
+  have := initStackLoop_lift (F := F) d (2 * 2 ^ d - (2 * (k % 2 ^ d) + 1)) [] (by rw [hp]; omega)
+  simp only [lift, List.map_nil] at this
+  rw [this]
+  have e1 : (2 * 2 ^ d - (2 * (k % 2 ^ d) + 1)) % 2 = 1 := by omega
+  have e2 : (2 * 2 ^ d - (2 * (k % 2 ^ d) + 1)) / 2 = 2 ^ d - k % 2 ^ d - 1 := by omega
+  rw [e1, e2]
+  simp only [if_true, List.singleton_append, List.cons.injEq, true_and]
+  -- (k+1) mod 2^d
+  have h1 := Nat.div_add_mod k (2 ^ d)
+  by_cases hlast : k % 2 ^ d = 2 ^ d - 1
+  · have hk : (k + 1) % 2 ^ d = 0 := by
+      have : k + 1 = 2 ^ d * (k / 2 ^ d + 1) := by rw [Nat.mul_add, Nat.mul_one]; omega
+      rw [this]; exact Nat.mul_mod_right _ _
+    have hz : 2 ^ d - k % 2 ^ d - 1 = 0 := by omega
+    rw [hz, initStackLoop_zero, if_neg (by omega)]
+    rfl
+  · have hk : (k + 1) % 2 ^ d = k % 2 ^ d + 1 := by
+      have : k + 1 = 2 ^ d * (k / 2 ^ d) + (k % 2 ^ d + 1) := by omega
+      rw [this, Nat.mul_add_mod, Nat.mod_eq_of_lt (by omega)]
+    rw [if_pos (by omega), hk]
+    have : 2 ^ d - k % 2 ^ d - 1 = 2 ^ d - (k % 2 ^ d + 1) := by omega
+    rw [this]
+    rfl
+
+/-! ### the initial stack cannot be folded -/
+
+theorem initStackLoop_sorted (i delta : Nat) (acc : List (Nat × F))
+    (hs : acc.Pairwise (fun a b => a.1 < b.1)) (hge : ∀ e ∈ acc, i ≤ e.1) :
+    (initStackLoop i delta acc).Pairwise (fun a b => a.1 < b.1) := by
+  induction i generalizing delta acc with
+  | zero => exact hs
+  | succ i ih =>
+    rw [initStackLoop]
+    split
+    · apply ih
+      · rw [List.pairwise_cons]
+        exact ⟨fun e he => by have := hge e he; simp; omega, hs⟩
+      · intro e he
+        rcases List.mem_cons.1 he with he | he
+        · rw [he]
+        · have := hge e he; omega
+    · exact ih _ _ hs (fun e he => by have := hge e he; omega)
+
+theorem foldTop_none_of_sorted (chal : List F) (st : List (Nat × F))
+    (hs : st.Pairwise (fun a b => a.1 < b.1)) : foldTop chal st = none := by
+  match st with
+  | [] => rfl
+  | [_] => rfl
+  | lhs :: rhs :: rest =>
+    have := (List.pairwise_cons.1 hs).1 rhs (by simp)
+    simp only [foldTop]
+    rw [if_neg (by omega)]
+
+theorem foldTop_initStack (chal : List F) (n d : Nat) : foldTop chal (initStack n d) = none := by
+  apply foldTop_none_of_sorted
+  unfold initStack
+  split
+  · exact initStackLoop_sorted _ _ _ List.Pairwise.nil (fun e he => by simp at he)
+  · exact List.Pairwise.nil
+
+/-! ### naive folding on the reversed (big-endian) vector -/
+
+theorem pairsBE_append (u : F) (xs : List F) (a b : F) (h : xs.length % 2 = 0) :
+    pairsBE u (xs ++ [a, b]) = pairsBE u xs ++ [a * u + b] := by
+  match xs, h with
+  | [], _ => rfl
+  | [_], h => simp at h
+  | x :: y :: rest, h =>
+    simp only [List.cons_append, pairsBE]
+    rw [pairsBE_append u rest a b (by simp at h; omega)]
+
+theorem pairsBE_length (u : F) (xs : List F) (h : xs.length % 2 = 0) :
+    xs.length = 2 * (pairsBE u xs).length := by
+  match xs, h with
+  | [], _ => rfl
+  | [_], h => simp at h
+  | x :: y :: rest, h =>
+    simp only [pairsBE, List.length_cons]
+    have := pairsBE_length u rest (by simp at h; omega)
+    omega
+
+theorem fold_length (cs : List F) (u : F) : (fold cs u).length = (cs.length + 1) / 2 := by
+  match cs with
+  | [] => simp [fold]
+  | [_] => simp [fold]
+  | a :: b :: rest =>
+    simp only [fold, List.length_cons]
+    rw [fold_length rest u]
+    omega
+
+/-- even length: the reversed folding is the pair-folding of the reversed vector; odd length: the
+top coefficient is kept and the rest pair-folded -/
+theorem fold_reverse (cs : List F) (u : F) :
+    (cs.length % 2 = 0 → (fold cs u).reverse = pairsBE u cs.reverse) ∧
+    (cs.length % 2 = 1 → ∃ a xs', cs.reverse = a :: xs' ∧ xs'.length % 2 = 0
+        ∧ (fold cs u).reverse = a :: pairsBE u xs') := by
+  match cs with
+  | [] => exact ⟨fun _ => rfl, fun h => by simp at h⟩
+  | [a] => exact ⟨fun h => by simp at h, fun _ => ⟨a, [], rfl, rfl, rfl⟩⟩
+  | a :: b :: rest =>
+    obtain ⟨ih1, ih2⟩ := fold_reverse rest u
+    constructor
+    · intro h
+      have hr : rest.length % 2 = 0 := by simp at h; omega
+      simp only [fold, List.reverse_cons, List.append_assoc, List.cons_append, List.nil_append]
+      rw [pairsBE_append u rest.reverse b a (by simpa using hr), ih1 hr]
+      congr 2; ring
+    · intro h
+      have hr : rest.length % 2 = 1 := by simp at h; omega
+      obtain ⟨t, xs', hx, hxl, hf⟩ := ih2 hr
+      refine ⟨t, xs' ++ [b, a], ?_, by simp; omega, ?_⟩
+      · simp only [List.reverse_cons, hx, List.append_assoc, List.cons_append, List.nil_append]
+      · simp only [fold, List.reverse_cons, hf, List.cons_append]
+        rw [pairsBE_append u xs' b a hxl]
+        congr 3; ring
+
+/-! ### the tree iterator enumerates the foldings -/
+
+/-- **`FoldedPolynomialTree`**: for every coefficient vector (any length) and every challenge list,
+the items of level `i` (`1 ≤ i ≤ depth`), in the order the iterator yields them, are the
+coefficients of the `i`-fold folding, highest degree first. -/
+theorem tree_level_eq_fold (chal : List F) : ∀ (cs : List F) (i : Nat), 1 ≤ i → i ≤ chal.length →
+    Tree.level (Tree.toList cs.reverse chal) i = (foldAll cs (chal.take i)).reverse := by
+  induction chal with
+  | nil => intro cs i h1 h2; simp at h2; omega
+  | cons u us ih =>
+    intro cs i h1 h2
+    -- the machine for `us` on the once-folded stream
+    obtain ⟨out', ho'⟩ := emits_total us _ (initStack (fold cs u).reverse.length us.length)
+      (fold cs u).reverse (Nat.le_refl _)
+    have hto' := toList_eq_of_emits us (fold cs u).reverse out' ho'
+    -- a run of the machine for `u :: us` with the level facts
+    have key : ∃ out, Emits (u :: us) (initStack cs.reverse.length (u :: us).length) cs.reverse out
+        ∧ Tree.level out 1 = (fold cs u).reverse
+        ∧ ∀ j, 1 ≤ j → Tree.level out (j + 1) = Tree.level out' j := by
+      obtain ⟨he, hodd⟩ := fold_reverse cs u
+      rcases Nat.mod_two_eq_zero_or_one cs.length with hpar | hpar
+      · -- even length
+        have hk : cs.length = 2 * (cs.length / 2) := by omega
+        have hfl : (fold cs u).reverse.length = cs.length / 2 := by
+          rw [List.length_reverse, fold_length]; omega
+        have hst : (initStack cs.reverse.length (u :: us).length : List (Nat × F))
+            = lift (initStack (fold cs u).reverse.length us.length) := by
+          rw [List.length_reverse, hfl, List.length_cons]
+          conv_lhs => rw [hk]
+          exact initStack_even _ _
+        rw [hst]
+        exact sim u us _ _ _ ho' cs.reverse (he hpar)
+          (by rw [hfl, List.length_reverse]; omega)
+      · -- odd length: the top coefficient meets the padding zero
+        obtain ⟨a, xs', hx, hxl, hf⟩ := hodd hpar
+        have hk : cs.length = 2 * (cs.length / 2) + 1 := by omega
+        have hfl : (fold cs u).reverse.length = cs.length / 2 + 1 := by
+          rw [List.length_reverse, fold_length]; omega
+        have hst : (initStack cs.reverse.length (u :: us).length : List (Nat × F))
+            = (0, 0) :: lift (initStack (fold cs u).reverse.length us.length) := by
+          rw [List.length_reverse, hfl, List.length_cons]
+          conv_lhs => rw [hk]
+          exact initStack_odd _ _
+        rw [hst, hx]
+        have ho'' : Emits us (initStack (fold cs u).reverse.length us.length)
+            (a :: pairsBE u xs') out' := by rw [← hf]; exact ho'
+        have hnone := foldTop_initStack us (fold cs u).reverse.length us.length
+        -- the first step of the `us`-machine is a read
+        cases ho'' with
+        | fold h _ => rw [hnone] at h; cases h
+        | read h k =>
+          have hys : xs'.length = 2 * (pairsBE u xs').length := pairsBE_length u xs' hxl
+          obtain ⟨o, ho, hl1, hl2⟩ := sim u us _ _ _ k xs' rfl hys
+          refine ⟨(1, a) :: o, ?_, ?_, ?_⟩
+          · apply Emits.read (foldTop_zero_on_lift _ 0 _)
+            have hp : pushItem (u :: us).length (0, a)
+                ((0, 0) :: lift (initStack (fold cs u).reverse.length us.length))
+                = (0, a) :: (0, 0) :: lift (initStack (fold cs u).reverse.length us.length) := by
+              simp [pushItem]
+            rw [hp]
+            have hfo : foldTop (u :: us)
+                ((0, a) :: (0, 0) :: lift (initStack (fold cs u).reverse.length us.length))
+                = some ((1, a), lift (initStack (fold cs u).reverse.length us.length)) := by
+              simp [foldTop]
+            apply Emits.fold hfo
+            have := pushItem_lift us.length (0, a) (initStack (fold cs u).reverse.length us.length)
+            simp only [List.length_cons, zero_add] at this ⊢
+            rw [this]
+            exact ho
+          · rw [level_cons, if_pos rfl, hl1, hf]
+          · intro j hj
+            rw [level_cons, if_neg (by simp; omega)]
+            exact hl2 j hj
+    obtain ⟨out, ho, hl1, hl2⟩ := key
+    rw [toList_eq_of_emits (u :: us) cs.reverse out ho]
+    rcases Nat.eq_or_lt_of_le h1 with h1' | h1'
+    · subst h1'
+      simpa [foldAll] using hl1
+    · obtain ⟨j, rfl⟩ : ∃ j, i = j + 1 := ⟨i - 1, by omega⟩
+      rw [hl2 j (by omega), ← hto', ih (fold cs u) j (by omega) (by simp at h2; omega)]
+      simp [foldAll]
+
+/-! ### nothing else is emitted -/
+
+theorem foldTop_mem (chal : List F) (st st' : List (Nat × F)) (item : Nat × F)
+    (h : foldTop chal st = some (item, st')) :
+    (∃ e ∈ st, item.1 = e.1 + 1) ∧ ∀ e ∈ st', e ∈ st := by
+  match st, h with
+  | lhs :: rhs :: rest, h =>
+    simp only [foldTop] at h
+    split at h
+    · injection h with h; injection h with h1 h2
+      subst h1; subst h2
+      exact ⟨⟨rhs, by simp, rfl⟩, fun e he => by simp [he]⟩
+    · cases h
+
+theorem emits_levels (chal : List F) (st : List (Nat × F)) (it : List F) (out : List (Nat × F))
+    (h : Emits chal st it out) (hst : ∀ e ∈ st, e.1 < chal.length) :
+    ∀ item ∈ out, 1 ≤ item.1 ∧ item.1 ≤ chal.length := by
+  induction h with
+  | @fold st it out item st' hf k ih =>
+    obtain ⟨⟨e, he, hl⟩, hsub⟩ := foldTop_mem chal st st' item hf
+    have hle : item.1 ≤ chal.length := by have := hst e he; omega
+    intro x hx
+    rcases List.mem_cons.1 hx with hx | hx
+    · rw [hx]; exact ⟨foldTop_level_pos chal st st' item hf, hle⟩
+    · apply ih _ x hx
+      intro e' he'
+      unfold pushItem at he'
+      split at he'
+      · rcases List.mem_cons.1 he' with h1 | h1
+        · rw [h1]; omega
+        · exact hst e' (hsub e' h1)
+      · exact hst e' (hsub e' he')
+  | @read st x it out hf k ih =>
+    apply ih
+    intro e' he'
+    unfold pushItem at he'
+    split at he'
+    · rename_i hne
+      rcases List.mem_cons.1 he' with h1 | h1
+      · rw [h1]; simp at hne ⊢; omega
+      · exact hst e' h1
+    · exact hst e' he'
+  | done _ => intro x hx; simp at hx
+
+theorem initStackLoop_levels (i delta : Nat) (acc : List (Nat × F)) (d : Nat) (hi : i ≤ d)
+    (hacc : ∀ e ∈ acc, e.1 < d) : ∀ e ∈ initStackLoop i delta acc, e.1 < d := by
+  induction i generalizing delta acc with
+  | zero => exact hacc
+  | succ i ih =>
+    rw [initStackLoop]
+    split
+    · apply ih _ _ (by omega)
+      intro e he
+      rcases List.mem_cons.1 he with h | h
+      · rw [h]; simp; omega
+      · exact hacc e h
+    · exact ih _ _ (by omega) hacc
+
+/-- every item the tree iterator yields has a level in `1..depth` -/
+theorem tree_items_levels (chal csBE : List F) :
+    ∀ item ∈ Tree.toList csBE chal, 1 ≤ item.1 ∧ item.1 ≤ chal.length := by
+  obtain ⟨out, ho⟩ := emits_total chal _ (initStack csBE.length chal.length) csBE (Nat.le_refl _)
+  rw [toList_eq_of_emits chal csBE out ho]
+  apply emits_levels chal _ _ _ ho
+  unfold initStack
+  split
+  · exact initStackLoop_levels _ _ _ _ (Nat.le_refl _) (fun e he => by simp at he)
+  · intro e he; simp at he
+
+/-! ### the stream iterator -/
+
+/-- big-step semantics of `FoldedPolynomialStreamIter` (one constructor per outcome of a round) -/
+inductive EmitsS (chal : List F) : List (Nat × F) → List F → List F → Prop
+  | push {st it item st' it' out} (h : Stream.stepItem chal st it = some (item, st', it'))
+      (hne : item.1 ≠ chal.length) (k : EmitsS chal (item :: st') it' out) : EmitsS chal st it out
+  | out {st it item st' it' out} (h : Stream.stepItem chal st it = some (item, st', it'))
+      (heq : item.1 = chal.length) (k : EmitsS chal st' it' out) : EmitsS chal st it (item.2 :: out)
+  | done {st it} (h : Stream.stepItem chal st it = none) : EmitsS chal st it []
+
+theorem stepItem_measure (chal : List F) (st st' : List (Nat × F)) (it it' : List F)
+    (item : Nat × F) (h : Stream.stepItem chal st it = some (item, st', it')) :
+    2 * it'.length + st'.length + 2 ≤ 2 * it.length + st.length := by
+  cases hf : foldTop chal st with
+  | some r =>
+    obtain ⟨item0, st0⟩ := r
+    simp only [Stream.stepItem, hf, Option.some.injEq, Prod.mk.injEq] at h
+    obtain ⟨_, h2, h3⟩ := h
+    subst h2; subst h3
+    have := foldTop_length chal st st0 item0 hf
+    omega
+  | none =>
+    simp only [Stream.stepItem, hf] at h
+    split at h
+    · rcases it with _ | ⟨a, _ | ⟨b, it1⟩⟩ <;> simp at h
+      obtain ⟨_, h2, h3⟩ := h
+      subst h2; subst h3; simp; omega
+    · rcases it with _ | ⟨a, it1⟩ <;> simp at h
+      obtain ⟨_, h2, h3⟩ := h
+      subst h2; subst h3; simp; omega
+
+/-- one call of `next` with enough fuel yields the head of the big-step output -/
+theorem nextS_of_emits (chal : List F) (st : List (Nat × F)) (it out : List F)
+    (h : EmitsS chal st it out) : ∀ f, 2 * it.length + st.length < f →
+      (out = [] → Stream.next chal f st it = none) ∧
+      (∀ x out', out = x :: out' → ∃ it' st', Stream.next chal f st it = some (x, it', st')
+        ∧ EmitsS chal st' it' out') := by
+  induction h with
+  | @push st it item st' it' out h hne k ih =>
+    intro f hf
+    have hm := stepItem_measure chal st st' it it' item h
+    cases f with
+    | zero => omega
+    | succ f =>
+      simp only [Stream.next, h, if_pos hne]
+      exact ih f (by simp; omega)
+  | @out st it item st' it' out h heq k _ =>
+    intro f hf
+    cases f with
+    | zero => omega
+    | succ f =>
+      simp only [Stream.next, h, if_neg (not_not.2 heq)]
+      refine ⟨fun hc => (by cases hc), ?_⟩
+      intro x out' hx
+      injection hx with hx1 hx2
+      subst hx1; subst hx2
+      exact ⟨it', st', rfl, k⟩
+  | @done st it h =>
+    intro f hf
+    cases f with
+    | zero => omega
+    | succ f =>
+      simp only [Stream.next, h]
+      exact ⟨fun _ => trivial, fun x out' hc => (by cases hc)⟩
+
+theorem collectS_of_emits (chal : List F) (out : List F) : ∀ (st : List (Nat × F)) (it : List F),
+    EmitsS chal st it out → ∀ f, out.length < f → Stream.collect chal f st it = out := by
+  induction out with
+  | nil =>
+    intro st it h f hf
+    cases f with
+    | zero => omega
+    | succ f =>
+      have := (nextS_of_emits chal st it [] h (2 * it.length + st.length + 1) (by omega)).1 rfl
+      simp only [Stream.collect, this]
+  | cons x out ih =>
+    intro st it h f hf
+    cases f with
+    | zero => omega
+    | succ f =>
+      obtain ⟨it', st', hn, hk⟩ :=
+        (nextS_of_emits chal st it (x :: out) h (2 * it.length + st.length + 1) (by omega)).2 x out rfl
+      simp only [Stream.collect, hn]
+      rw [ih st' it' hk f (by simp at hf; omega)]
+
+theorem foldTop_zero_fast (chal : List F) (x : F) (st : List (Nat × F))
+    (h : Stream.fastPath st = true) : foldTop chal ((0, x) :: st) = none := by
+  match st, h with
+  | [], _ => rfl
+  | top :: rest, h =>
+    simp only [Stream.fastPath, bne_iff_ne, ne_eq] at h
+    simp only [foldTop]
+    rw [if_neg (by simpa using fun hh => h hh.symm)]
+
+theorem level_length_le (items : List (Nat × F)) (i : Nat) :
+    (Tree.level items i).length ≤ items.length := by
+  unfold Tree.level
+  rw [List.length_map]
+  exact List.length_filter_le _ _
+
+/-- for a positive depth the stream iterator yields the top-level items of the tree iterator's run
+(its fast path reads two items and folds them at once, `challenges[0] * rhs + lhs`) -/
+theorem streamS_of_emits (chal : List F) (hd : 1 ≤ chal.length) : ∀ (m : Nat)
+    (st : List (Nat × F)) (it : List F) (out : List (Nat × F)),
+    2 * it.length + st.length ≤ m → Emits chal st it out →
+      EmitsS chal st it (Tree.level out chal.length) := by
+  intro m
+  induction m with
+  | zero =>
+    intro st it out hm h
+    have h1 : it = [] := List.length_eq_zero_iff.1 (by omega)
+    have h2 : st = [] := List.length_eq_zero_iff.1 (by omega)
+    subst h1; subst h2
+    cases h with
+    | fold h _ => simp [foldTop] at h
+    | done h => exact EmitsS.done (by simp [Stream.stepItem, foldTop])
+  | succ m ih =>
+    intro st it out hm h
+    cases h with
+    | @fold _ _ out item st' hf k =>
+      have hlen := foldTop_length chal st st' item hf
+      have hstep : Stream.stepItem chal st it = some (item, st', it) := by
+        simp [Stream.stepItem, hf]
+      rw [level_cons]
+      by_cases heq : item.1 = chal.length
+      · rw [if_pos heq]
+        have hp : pushItem chal.length item st' = st' := by simp [pushItem, heq]
+        rw [hp] at k
+        exact EmitsS.out hstep heq (ih _ _ _ (by omega) k)
+      · rw [if_neg heq]
+        have hp : pushItem chal.length item st' = item :: st' := by simp [pushItem, heq]
+        rw [hp] at k
+        exact EmitsS.push hstep heq (ih _ _ _ (by simp; omega) k)
+    | @read _ x it' _ hf k =>
+      have hp : pushItem chal.length (0, x) st = (0, x) :: st := by
+        simp [pushItem]; omega
+      rw [hp] at k
+      by_cases hfast : Stream.fastPath st = true
+      · have hz := foldTop_zero_fast chal x st hfast
+        cases k with
+        | fold h2 _ => rw [hz] at h2; cases h2
+        | done _ =>
+          exact EmitsS.done (by
+            simp only [Stream.stepItem, hf, hfast, Bool.and_true]
+            rw [if_pos (by simp; omega)])
+        | @read _ y it'' _ _ k2 =>
+          have hp2 : pushItem chal.length (0, y) ((0, x) :: st) = (0, y) :: (0, x) :: st := by
+            simp [pushItem]; omega
+          rw [hp2] at k2
+          have hf3 : foldTop chal ((0, y) :: (0, x) :: st)
+              = some ((1, x * chal.getD 0 0 + y), st) := by simp [foldTop]
+          cases k2 with
+          | read h3 _ => rw [hf3] at h3; cases h3
+          | done h3 => rw [hf3] at h3; cases h3
+          | @fold _ _ out3 item3 st3 h3 k3 =>
+            rw [hf3] at h3
+            injection h3 with h3; injection h3 with h3a h3b
+            subst h3a; subst h3b
+            have hstep : Stream.stepItem chal st (x :: y :: it'')
+                = some ((1, x * chal.getD 0 0 + y), st, it'') := by
+              simp only [Stream.stepItem, hf, hfast, Bool.and_true]
+              rw [if_pos (by simp; omega)]
+              simp; ring
+            rw [level_cons]
+            by_cases heq : (1 : Nat) = chal.length
+            · rw [if_pos heq]
+              have hp3 : pushItem chal.length (1, x * chal.getD 0 0 + y) st = st := by
+                simp [pushItem, heq.symm]
+              rw [hp3] at k3
+              exact EmitsS.out hstep heq (ih _ _ _ (by simp at hm; omega) k3)
+            · rw [if_neg heq]
+              have hp3 : pushItem chal.length (1, x * chal.getD 0 0 + y) st
+                  = (1, x * chal.getD 0 0 + y) :: st := by
+                simp [pushItem]; omega
+              rw [hp3] at k3
+              exact EmitsS.push hstep heq (ih _ _ _ (by simp at hm ⊢; omega) k3)
+      · have hstep : Stream.stepItem chal st (x :: it') = some ((0, x), st, it') := by
+          simp [Stream.stepItem, hf, hfast]
+        exact EmitsS.push hstep (by simp; omega) (ih _ _ _ (by simp at hm ⊢; omega) k)
+    | done hf =>
+      exact EmitsS.done (by
+        simp only [Stream.stepItem, hf]
+        split <;> rfl)
+
+/-- depth 0: the stream iterator returns the stream itself -/
+theorem streamS_depth_zero (it : List F) : EmitsS ([] : List F) [] it it := by
+  induction it with
+  | nil => exact EmitsS.done (by simp [Stream.stepItem, foldTop])
+  | cons x it ih =>
+    have hstep : Stream.stepItem ([] : List F) [] (x :: it) = some ((0, x), [], it) := by
+      simp [Stream.stepItem, foldTop]
+    exact EmitsS.out hstep rfl ih
+
+/-- **`FoldedPolynomialStream`**: for every coefficient vector (any length) and every challenge
+list the iterator yields exactly the coefficients of the full folding, highest degree first. -/
+theorem stream_eq_fold (chal cs : List F) :
+    Stream.toList cs.reverse chal = (foldAll cs chal).reverse := by
+  unfold Stream.toList
+  cases chal with
+  | nil =>
+    have h0 : (initStack cs.reverse.length ([] : List F).length : List (Nat × F)) = [] := by
+      simp [initStack, Nat.mod_one]
+    rw [h0]
+    exact collectS_of_emits [] _ _ _ (streamS_depth_zero cs.reverse) _ (by simp)
+  | cons u us =>
+    obtain ⟨out, ho⟩ := emits_total (u :: us) _ (initStack cs.reverse.length (u :: us).length)
+      cs.reverse (Nat.le_refl _)
+    have hS := streamS_of_emits (u :: us) (by simp) _ _ _ _ (Nat.le_refl _) ho
+    have hlev := tree_level_eq_fold (u :: us) cs (u :: us).length (by simp) (Nat.le_refl _)
+    rw [toList_eq_of_emits (u :: us) cs.reverse out ho, List.take_length] at hlev
+    rw [hlev] at hS
+    refine collectS_of_emits (u :: us) _ _ _ hS _ ?_
+    -- the full folding is not longer than the input
+    have : ∀ (us : List F) (cs : List F), (foldAll cs us).length ≤ cs.length := by
+      intro us
+      induction us with
+      | nil => intro cs; simp [foldAll]
+      | cons v vs ih =>
+        intro cs
+        simp only [foldAll]
+        have := ih (fold cs v)
+        rw [fold_length] at this
+        omega
+    have := this (u :: us) cs
+    simp at this ⊢
+    omega
 
 end Fold
 end PCV
